@@ -53,6 +53,8 @@ for d in sorted(glob.glob(os.path.join(src, "C*-*"))):
         shutil.rmtree(dst)
     os.makedirs(dst)
     shutil.copy(os.path.join(d, "patch.diff"), os.path.join(dst, "patch.diff"))
+    if os.path.exists(os.path.join(d, "patch.orig.diff")):
+        shutil.copy(os.path.join(d, "patch.orig.diff"), os.path.join(dst, "patch.orig.diff"))
     if os.path.isdir(os.path.join(d, "demo")):
         shutil.copytree(os.path.join(d, "demo"), os.path.join(dst, "demo"))
     out = {
@@ -65,7 +67,7 @@ for d in sorted(glob.glob(os.path.join(src, "C*-*"))):
         "demonstration": {
             "how_the_author_ran_it": meta.get("demo_run", ""),
             "fails_with": meta.get("demo_fails_with", ""),
-            "how_to_run_here": "git -C /repo worktree add --detach /tmp/wt HEAD; cd /tmp/wt; git apply /verif/seeded/%s/patch.diff; mkdir zzdemo; cp -r /verif/seeded/%s/demo/* zzdemo/; go test -vet=off -count=1 ./zzdemo/...   (demo/run.sh <worktree> or a demo/go.mod, when present, replace the last two steps); git -C /repo worktree remove --force /tmp/wt" % (sid, sid),
+            "how_to_run_here": "git -C /repo worktree add --detach /tmp/wt HEAD; cd /tmp/wt; git apply /verif/seeded/%s/patch.diff; mkdir zzdemo; cp -r /verif/seeded/%s/demo/* zzdemo/; go test -vet=off -count=1 ./zzdemo/...   (a demo/zzdemo directory is copied as is; a demo with its own go.mod is run in place with `go test [-race] ./...` after pointing its `replace github.com/benoitkugler/gomacro => ...` line at /tmp/wt; demo/run.sh <worktree>, when present, does all of it); git -C /repo worktree remove --force /tmp/wt" % (sid, sid),
         },
         "confirmed_by_me": verify.get(sid, {}),
         "checks_run": {
